@@ -32,6 +32,7 @@ class Net:
         self.reliable: Callable[[str, list[bytes]], bool] = lambda addr, frames: False
         self.clock_ns = 1_000_000_000_000
         self.on_block: Callable[["Socket"], None] | None = None
+        self.on_idle: Callable[[Any, Any], None] | None = None
         self.sent_log: list[tuple[str, list[bytes]]] = []
         self.log_sends = False
         self.seq = 0
@@ -178,6 +179,10 @@ class Poller:
 
     def poll(self, timeout=None):
         ready = [(s, POLLIN) for s in self.socks if s._inbox()]
+        if not ready and self.net.on_idle is not None and (timeout is None or timeout > 0):
+            # lock-step mode: hand control to the driver; on resume either something arrived or the timeout fires
+            self.net.on_idle(self, timeout)
+            ready = [(s, POLLIN) for s in self.socks if s._inbox()]
         if not ready and timeout:
             self.net.advance_ms(timeout)
         return ready
